@@ -82,7 +82,7 @@ pub fn meta(prop: &str) -> Option<Meta> {
         },
         "C07" => Meta {
             level: "exploration",
-            rule: "every call runs in a worker built with AddressSanitizer (quick; thorough adds MemorySanitizer and a libFuzzer+ASan campaign) and debug assertions; a sanitizer report aborts the worker and is reported with the in-flight case. Two generators over N in {1,2,4,16}, capacity 1..40: (1) an in-domain generated history (profiles limit-edge, gc-orders, forest, queries; no call may panic), extended in-domain until a limit is reached exactly, then ONE call that exceeds exactly one limit — id at or above the capacity in add/bind/put/data/kid/kids/slice/inspect/v_print/merge, an (N+1)-th label, a 17th group member — which must panic; (2) anything goes: up to 120 raw calls with ids up to capacity+2, equal/absent bind endpoints, 15th group, clone, slice, slice_some, merge of non-trees (the graph with itself, cyclic right graphs), save+load, exports, inspect, scripts, every call under catch_unwind and the same graph used on after a panic; no expectation but the sanitizer's silence. Non-trivial: (1) an overrun call was executed after reaching its limit exactly; (2) at least one call panicked and the sequence went on.",
+            rule: "every call runs in a worker built with AddressSanitizer (quick; thorough adds MemorySanitizer and a libFuzzer+ASan campaign) and debug assertions; a sanitizer report aborts the worker and is reported with the in-flight case. Two generators over N in {1,2,4,16}, capacity 1..40: (1) an in-domain generated history (profiles limit-edge, gc-orders, forest, queries; no call may panic), extended in-domain until a limit is reached exactly, then ONE call that exceeds exactly one limit — id at or above the capacity in add/bind/put/data/kid/kids/slice/inspect/v_print/merge, an (N+1)-th label, a 17th group member — which must panic; (2) anything goes: up to 120 raw calls with ids up to capacity+2, equal/absent bind endpoints, 15th group, clone, slice, slice_some, merge of non-trees (the graph with itself, cyclic right graphs), save+load, exports, inspect, scripts, every call under catch_unwind and the same graph used on after a panic; no expectation but the sanitizer's silence. One anything-goes sequence in 8 starts with the group-exhaustion scenario on a store of 64..600 slots (14 groups on low ids, then 4..23 more pairs of ungrouped vertices bound at the largest ids, then clone, Debug, save+load, slice, reads); a quarter of the raw calls exercise the value types (Hex::from_str on 0..47 hex digits with no / canonical / sparse dashes, Label::from_str on arbitrary characters, concat, tail, ranges, byte_at). Non-trivial: (1) an overrun call was executed after reaching its limit exactly; (2) at least one call panicked and the sequence went on.",
             assumptions: &["claimed for builds with debug assertions (the crate's own bounds checks)", "AddressSanitizer does not report uninitialised reads: the thorough tier adds a MemorySanitizer run", "leak detection is off (emap never drops its elements by design)"],
             subs: vec![Sub { id: "asan-seq", quick: 24_000, thorough: 240_000 }, Sub { id: "msan-seq", quick: 0, thorough: 32_000 }],
         },
@@ -94,7 +94,7 @@ pub fn meta(prop: &str) -> Option<Meta> {
         },
         "C09" => Meta {
             level: "fault_enumeration",
-            rule: "graphs from generated histories (<=50 calls; profiles overwrite-heavy, gc-orders, limit-edge; every N; capacities 2..256) are saved through save(); the complete image must load back (control); then for EVERY cut point 0 <= k < size (thorough: always; quick: every k for images <= 4096 bytes, otherwise the first and last 600 positions plus 1024 evenly spread ones) the file is truncated to k bytes and load() must return Err: never Ok, never a panic. Non-trivial image: holds a heap-encoded datum (>8 bytes) and a vertex with >=2 edges. Distinct = distinct (image, k) pairs of non-trivial images.",
+            rule: "graphs from generated histories (<=50 calls; profiles overwrite-heavy, gc-orders, limit-edge; every N; capacities 2..256) are saved through save(); the complete image must load back (control); then for EVERY cut point 0 <= k < size (thorough: always; quick: every k for images <= 4096 bytes, otherwise the first and last 600 positions plus 1024 evenly spread ones) the file is truncated to k bytes and load() must return Err: never Ok, never a panic. One image in ~100 additionally holds a 1.3 MB datum (image > 1 MiB); images above 256 KiB get the sampled cut points (first/last 600, 1024 evenly spread, and k-1, k, k+1 around every power of two from 4096) in both tiers. Non-trivial image: holds a heap-encoded datum (>8 bytes) and a vertex with >=2 edges. Distinct = distinct (image, k) pairs of non-trivial images.",
             assumptions: &["a crash during the non-atomic write leaves a prefix of the image (no torn or reordered blocks)", "load() is called with the N the image was saved with"],
             subs: vec![Sub { id: "prefixes", quick: 800, thorough: 16_000 }],
         },
@@ -112,7 +112,7 @@ pub fn meta(prop: &str) -> Option<Meta> {
         },
         "C12" => Meta {
             level: "exploration",
-            rule: "left tree and `left` as C11; right graph = generated tree reachable from `right` plus 0..4 generated extras: isolated present vertices with and without data, detached sub-trees (an extra whose parent is another extra), and vertices pointing at `right` (so that `right` is not the root of its graph). Oracle: extras present => merge() returns Err (no panic, never Ok) and the part of the message after 'missed:' names ν<id> of every unreachable present vertex; no extras => Ok (control). Nothing is asserted about g after an Err. Non-trivial: >=1 extra incl. a detached sub-tree of >=2 vertices.",
+            rule: "left tree and `left` as C11; right graph = generated tree reachable from `right` plus 0..4 generated extras: isolated present vertices with and without data, detached sub-trees (an extra whose parent is another extra), and vertices pointing at `right` (so that `right` is not the root of its graph). Extras may hold a datum that was already read before the merge. 6% of the cases use mirror mode: both graphs are the same chain of 2..26 vertices built from separately bound pairs that are linked afterwards (up to 13 groups), the right one plus a detached pair created last (a 14th group) and possibly an isolated vertex; the merge then creates nothing and stays within every limit. Oracle: extras present => merge() returns Err (no panic, never Ok) and the part of the message after 'missed:' names ν<id> of every unreachable present vertex; no extras => Ok (control). Nothing is asserted about g after an Err. Non-trivial: >=1 extra incl. a detached sub-tree of >=2 vertices.",
             assumptions: &["the reachable part is mergeable within the limits (judged on the reference model); other cases are skipped and counted"],
             subs: vec![Sub { id: "treegen", quick: 64_000, thorough: 3_200_000 }],
         },
@@ -130,19 +130,19 @@ pub fn meta(prop: &str) -> Option<Meta> {
         },
         "C15" => Meta {
             level: "exploration",
-            rule: "per case: generated 12-byte content, 8-byte padding, 4 random + 10 special i64, 4 random + 12 special f64 bit patterns; for every length 0..=12 and every representation (canonical, heap Vector, inline array with non-zero padding) EVERY index i in {0..=14, usize::MAX-1, usize::MAX} for [i], byte_at, tail, [i..], [..i], [..=i], IndexMut and every pair (i,j) of those for [i..j], [i..=j] is compared with the same operation on the byte slice (equal result or both panic); plus bytes/len/to_vec/print/Display/Debug/[..]/eq across representations/from_str(print)/to_i64/to_f64/to_utf8/to_bool and the From conversions. The index space is enumerated completely per content. Distinct non-trivial = distinct (bytes, representation, padding) triples whose whole index space was checked.",
+            rule: "per case: generated 12-byte content, 8-byte padding, 4 random + 10 special i64, 4 random + 12 special f64 bit patterns; for every length 0..=12 and every representation (canonical, heap Vector, inline array with non-zero padding) EVERY index i in {0..=14, usize::MAX-1, usize::MAX} for [i], byte_at, tail, [i..], [..i], [..=i], IndexMut and every pair (i,j) of those for [i..j], [i..=j] is compared with the same operation on the byte slice (equal result or both panic); plus bytes/len/to_vec/print/Display/Debug/[..]/eq across representations/from_str(print)/to_i64/to_f64/to_utf8/to_bool and the From conversions. In addition three long byte strings per case (lengths from {13..64, 200, 255, 256, 257, 1000, 65535, 65536, 65537} plus 0..6) in canonical and heap form are checked for the whole-value accessors and at sampled indices/ranges: 0, 1, 7, 8, 9, the middle, len-1, len, len+1, 255, 256, 257, 65535, 65536, usize::MAX and six generated positions, in both orders. The index space is enumerated completely per content. Distinct non-trivial = distinct (bytes, representation, padding) triples whose whole index space was checked.",
             assumptions: &["the oracle is Rust's own slice indexing on the same bytes", "lengths 0..=12, indices 0..=14 and the two largest usize values"],
             subs: vec![Sub { id: "hexenum", quick: 240, thorough: 9_600 }],
         },
         "C16" => Meta {
             level: "exploration",
-            rule: "per case: two generated 12-byte contents and paddings; EVERY (len a, len b) in 0..=12 x 0..=12 and every pair of representations (canonical, heap, inline with non-zero padding): a.concat(b).bytes() == a.bytes() ++ b.bytes(), operands unchanged (bytes and representation). The length space is enumerated completely per content. Distinct non-trivial = distinct (a bytes, b bytes, representations) with a length of 8 or a total above 8. Failures with the exact signature of the open known finding are counted and the search goes on.",
+            rule: "per case: two generated 12-byte contents and paddings; EVERY (len a, len b) in 0..=12 x 0..=12 and every pair of representations (canonical, heap, inline with non-zero padding): a.concat(b).bytes() == a.bytes() ++ b.bytes(), operands unchanged (bytes and representation). The same enumeration is repeated with all-zero and all-0xFF contents on either side, and four pairs of long operands per case (lengths from {0, 1, 7, 8, 9, 13, 16, 31, 255, 256, 257, 1000, 4096, 65535, 65536, 65537} plus 0..2) in all representation pairs. The length space is enumerated completely per content. Distinct non-trivial = distinct (a bytes, b bytes, representations) with a length of 8 or a total above 8. Failures with the exact signature of the open known finding are counted and the search goes on.",
             assumptions: &["the oracle is Vec concatenation", "lengths 0..=12"],
             subs: vec![Sub { id: "concatenum", quick: 800, thorough: 32_000 }],
         },
         "C17" => Meta {
             level: "exploration",
-            rule: "sub-campaign labels-enum: EVERY text of length 0..=4 (quick) / 0..=5 (thorough) over the 14-symbol alphabet {a Z 7 + - _ α ρ φ 𝜑 0 1 9 space} is classified by an independent reading of the documented grammar into in-domain (must parse, print back identically, be injective, and equal the directly constructed value), must-be-rejected (more than 8 characters without α prefix, malformed or overflowing index) or unspecified (empty, contains a space, +index, leading zeros, α-index text longer than 8: skipped and counted); sub-campaign labels: generated texts of length 5..=10 over the alphabet, arbitrary unicode texts, α+1..22 digits; every canonical value (Greek(c), Alpha(n), Str of 2..=8) met is printed, parsed back, compared, and looked up in a graph (bind under the constructed label, kid under the parsed one). Distinct non-trivial = distinct judged (not unspecified) texts.",
+            rule: "sub-campaign labels-enum: EVERY text of length 0..=4 (quick) / 0..=5 (thorough) over the 14-symbol alphabet {a Z 7 + - _ α ρ φ 𝜑 0 1 9 space} is classified by an independent reading of the documented grammar into in-domain (must parse, print back identically, be injective, and equal the directly constructed value), must-be-rejected (more than 8 characters without α prefix, malformed or overflowing index) or unspecified (empty, contains a space, +index, leading zeros, α-index text longer than 8: skipped and counted); sub-campaign labels: generated texts of length 5..=10 over the alphabet, arbitrary unicode texts, α+1..22 digits, homogeneous texts of every length 1..=9 per UTF-8 width (a, ρ, 中, 𝜑) and mixtures at the 8-character boundary, α followed by the indices around 2^32 and usize::MAX; every canonical value (Greek(c), Alpha(n), Str of 2..=8) met is printed, parsed back, compared, and looked up in a graph (bind under the constructed label, kid under the parsed one). Distinct non-trivial = distinct judged (not unspecified) texts.",
             assumptions: &["the text grammar as read from the property statement and src/label.rs documentation (DESIGN §6 C17 lists the unspecified classes)"],
             subs: vec![Sub { id: "labels-enum", quick: 1, thorough: 1 }, Sub { id: "labels", quick: 8_000, thorough: 320_000 }],
         },
